@@ -259,8 +259,13 @@ class DelAttrMethod(MethodDescriptor):
                 )
 
             attr_spec = self.__spec_class__.attrs.get(attr)
+            default = (
+                attr_spec.lookup_default_value(self.__class__)
+                if attr_spec and not attr_spec.is_masked
+                else MISSING
+            )  # respects default factories and subclass overrides; mutate-safe
 
-            if not attr_spec or attr_spec.default is MISSING or attr_spec.is_masked:
+            if default is MISSING:
                 self.__delattr__.__raw__(self, attr)
                 if not skip_invalidation:
                     invalidate_attrs(self, attr)
@@ -269,7 +274,7 @@ class DelAttrMethod(MethodDescriptor):
             return mutate_attr(
                 obj=self,
                 attr=attr,
-                value=protect_via_deepcopy(attr_spec.default),  # handle default factory
+                value=default,
                 inplace=True,
                 force=True,
                 skip_invalidation=skip_invalidation,
